@@ -317,7 +317,8 @@ theorem maybePromote_nn {sf : Flags} {sk : CompKind} {scs : List (Key × Node)} 
     repeat' split at h
     all_goals first
       | (cases h; rw [NN_comp]; exact ⟨hsf, hscs⟩)
-      | (rename_i cs' ha; cases h; rw [NN_comp]; exact ⟨hsf, adoptAll_nn _ hof _ _ _ hscs nnList_nil ha⟩)
+      | (rename_i cs' ha; cases h; rw [NN_comp]
+         exact ⟨by unfold promotedFlags; split <;> simpa [nnF] using hsf, adoptAll_nn _ hof _ _ _ hscs nnList_nil ha⟩)
       | cases h
 
 theorem finishMerge_nn {sf : Flags} {sk : CompKind} {scs : List (Key × Node)} {o r : Node} {b : Bool}
